@@ -7,6 +7,7 @@ import (
 	"iter"
 	"sort"
 	"strings"
+	"time"
 
 	cedar "github.com/cedar-policy/cedar-go"
 	"github.com/cedar-policy/cedar-go/types"
@@ -445,8 +446,9 @@ func pairFamily() *core.Family {
 
 func Check() *core.Check {
 	return &core.Check{
-		ID:    "C02",
-		Title: "Authorization decision: default deny, forbid overrides permit, errors skip",
+		ID:        "C02",
+		HangAfter: 120 * time.Second, // cases take at most seconds (max_case_s in the evidence); see core.Family.HangAfter
+		Title:     "Authorization decision: default deny, forbid overrides permit, errors skip",
 		Rule: "bounded-exhaustive enumeration of policy sequences over the 6 effect x outcome classes (each outcome realised in every way the code distinguishes), parsed from one generated document; decision, reasons and errors (ids and source positions) compared with the decision table on 5 seams and under every iteration order of a harness PolicyIterator; " +
 			"a case is non-trivial if the expected diagnostic has at least one reason or error",
 		Assumptions: []string{"the outcome class of each realisation is declared by hand from the language semantics (and checked alone in family atoms-alone)", "one entity store and one request (stores/requests vary in C01/C03)"},
